@@ -55,7 +55,9 @@ Begin(k) == /\ lock = "none" /\ kind = "none" /\ ~inRec
             /\ UNCHANGED <<lock, inRec, stamp, stamped, logged, maxLogged, unlogged, disk, hdrNext, hdrNx, hdrDone>>
 
 \* StartTxn: shared lock.  Not while a flush runs; an unannounced one is a read.
+\* Nor by a statement that released the lock with stamped changes it had not logged: such a statement is over (Aborted).
 SharedLock == /\ lock = "none" /\ ~inRec
+              /\ kind \in DML => stamped \subseteq logged
               /\ lock' = "S" /\ kind' = (IF kind = "none" THEN "read" ELSE kind)
               /\ UNCHANGED <<inRec, stamp, stamped, logged, lastStamp, maxLogged, unlogged, disk, hdrNext, hdrNx, hdrDone>>
 
@@ -111,7 +113,11 @@ Aborted == /\ lock = "none" /\ kind \in DML \cup {"create"}
            /\ UNCHANGED <<lock, inRec, stamp, logged, lastStamp, maxLogged, unlogged, disk, hdrNext, hdrNx, hdrDone>>
 
 \* flushPages takes the exclusive lock: never while a statement holds the shared one (C13)
+\* and never while an announced statement has stamped changes it has not logged yet: a statement appends its
+\* records before it releases the shared lock (Locks!LoggedBeforeUnlock), so the flusher cannot meet such a page -
+\* it could neither write it (write-ahead) nor finish without it (WalOrderLive: the flush would never end)
 ExclusiveLock == /\ lock = "none"
+                 /\ kind \in DML => stamped \subseteq logged
                  /\ lock' = "X" /\ hdrDone' = "no"
                  /\ UNCHANGED <<kind, inRec, stamp, stamped, logged, lastStamp, maxLogged, unlogged, disk, hdrNext, hdrNx>>
 
